@@ -207,7 +207,7 @@ def device_traces(cases_by_n, rng, tier):
     for n, cases in sorted(cases_by_n.items()):
         pool = [c for c in cases if len(c["circ"]) >= 1]
         for case in rng.sample(pool, min(per_n[n], len(pool))):
-            labels = rng.choice([list(range(n)), ["a", "b", "c"][:n], rng.sample(range(6), n)])
+            labels = rng.choice([list(range(n)), list(range(n)), ["a", "b", "c"][:n], rng.sample(range(6), n), list(range(n, 0, -1))])
             k = rng.randint(1, n)
             ws = rng.sample(range(1, n + 1), k)              # measured register positions, column order
             mw = [labels[i - 1] for i in ws]
@@ -215,9 +215,21 @@ def device_traces(cases_by_n, rng, tier):
             dseed, mseed = rng.randrange(1, 10 ** 6), rng.randrange(1, 10 ** 6)
             devname = rng.choice(["default.qubit", "default.qubit", "default.mixed"])
             ops = [decode_gate(g, M, labels) for g in case["circ"]]
-            words = [[rng.randint(1, 3) for _ in range(k)]] + [[rng.randint(0, 3) for _ in range(k)] for _ in range(2)]
+            # words on the measured columns: the first has full support (fixes the measurement's wire order); prefer words that
+            # stabilise the state up to sign (exact expectation +-1 in TLC's table): their per-snapshot estimates have a fixed sign
+            evs = [sc(x) for x in case["ev"]]
+
+            def full_index(wd):
+                full = [0] * n
+                for j, p in enumerate(ws):
+                    full[p - 1] = wd[j]
+                return sum(c * 4 ** (n - 1 - i) for i, c in enumerate(full))
+            allw = [digits(v, 4, k) for v in range(1, 4 ** k)]
+            det = [wd for wd in allw if abs(abs(evs[full_index(wd)]) - 1) < 1e-12]
+            fulls = [wd for wd in (det or allw) if all(wd)] or [wd for wd in allw if all(wd)]
+            words = [rng.choice(fulls)] + rng.sample(det, min(2, len(det))) + [[rng.randint(0, 3) for _ in range(k)]]
             meta = {"n": n, "dev": devname, "labels": labels, "wires": mw, "shots": shots, "seeds": [dseed, mseed],
-                    "ops": [str(o) for o in ops], "words": words}
+                    "ops": [str(o) for o in ops], "words": words, "exact_ev": [round(evs[full_index(wd)].real, 6) for wd in words]}
             try:
                 dev = qp.device(devname, wires=labels, seed=dseed)
                 tape = qp.tape.QuantumScript(ops, [qp.classical_shadow(wires=mw, seed=mseed)], shots=shots)
@@ -233,9 +245,6 @@ def device_traces(cases_by_n, rng, tier):
                 tape2 = qp.tape.QuantumScript(ops, [qp.shadow_expval(obs, seed=mseed)], shots=shots)
                 meta["shadow_expval"] = np.asarray(qp.execute([tape2], dev, diff_method=None)[0], dtype=float).reshape(-1).tolist()
             except Exception as e:  # pylint: disable=broad-except
-                # qp.shadow_expval does not map its observable's wires to the device's internal wire indices: with wire labels other
-                # than 0..n-1 it raises KeyError.  Not part of the statement (which speaks about bits/recipes and the estimator):
-                # counted, reported, no violation.  With the standard labels an exception is reported.
                 meta["shadow_expval"] = None
                 meta["shadow_expval_exception"] = f"{type(e).__name__}: {e}"
             shape = list(out.shape)
@@ -244,8 +253,15 @@ def device_traces(cases_by_n, rng, tier):
                 for t in range(shape[1]):
                     key = (tuple(int(x) for x in out[1][t]), tuple(int(x) for x in out[0][t]))
                     rowsd[key] = rowsd.get(key, 0) + 1
+            sev, sevint = [], []
+            if meta["shadow_expval"] is not None and len(meta["shadow_expval"]) == len(words):
+                for v, wd in zip(meta["shadow_expval"], words):
+                    mm = v * shots / 3 ** sum(1 for c in wd if c)
+                    sev.append(int(round(mm)))
+                    sevint.append(bool(abs(mm - round(mm)) < 1e-6))
             recs.append({"n": n, "ops": case["circ"], "ws": ws, "T": shots, "shape": shape, "isint": bool(np.issubdtype(out.dtype, np.integer)),
-                         "samples": [{"r": list(r), "b": list(b), "c": c} for (r, b), c in sorted(rowsd.items())], "words": words})
+                         "samples": [{"r": list(r), "b": list(b), "c": c} for (r, b), c in sorted(rowsd.items())], "words": words,
+                         "hassev": bool(sev), "sev": sev, "sevint": sevint})
             metas.append(meta)
     return recs, metas
 
@@ -306,12 +322,15 @@ def run(tier, seed):
     live = [(m, r) for m, r in zip(metas, recs) if r is not None]
     # negative controls (must be rejected by TLC): an impossible outcome (|0> measured in Z reads 1), a recipe out of range,
     # a wrong shape
-    neg = [{"n": 1, "ops": [], "ws": [1], "T": 3, "shape": [2, 3, 1], "isint": True, "samples": [{"r": [2], "b": [1], "c": 3}], "words": []},
-           {"n": 1, "ops": [], "ws": [1], "T": 3, "shape": [2, 3, 1], "isint": True, "samples": [{"r": [3], "b": [0], "c": 3}], "words": []},
-           {"n": 1, "ops": [], "ws": [1], "T": 3, "shape": [3, 2, 1], "isint": True, "samples": [{"r": [2], "b": [0], "c": 3}], "words": []}]
+    nosev = {"hassev": False, "sev": [], "sevint": []}
+    neg = [dict({"n": 1, "ops": [], "ws": [1], "T": 3, "shape": [2, 3, 1], "isint": True, "samples": [{"r": [2], "b": [1], "c": 3}], "words": []}, **nosev),
+           dict({"n": 1, "ops": [], "ws": [1], "T": 3, "shape": [2, 3, 1], "isint": True, "samples": [{"r": [3], "b": [0], "c": 3}], "words": []}, **nosev),
+           dict({"n": 1, "ops": [], "ws": [1], "T": 3, "shape": [3, 2, 1], "isint": True, "samples": [{"r": [2], "b": [0], "c": 3}], "words": []}, **nosev),
+           # |0>: the only possible estimates of Z are 0 and +3, so shadow_expval(Z) = -1 (m = -1) is infeasible
+           {"n": 1, "ops": [], "ws": [1], "T": 3, "shape": [2, 3, 1], "isint": True, "samples": [{"r": [2], "b": [0], "c": 3}], "words": [[3]],
+            "hassev": True, "sev": [-1], "sevint": [True]}]
     if live:
-        m0, r0 = live[0]                       # a real trace with one bit flipped in an X-measurement of a |+>-like state is not
-        neg.append(dict(r0, T=r0["T"] + 1))    # generally impossible; corrupt the total instead
+        neg.append(dict(live[0][1], T=live[0][1]["T"] + 1))      # a real trace with a corrupted shot total
     allrecs = [r for _, r in live] + neg
     wd = lib.workdir("C60", "trace")
     (wd / "traces.json").write_text(json.dumps(allrecs))
@@ -323,7 +342,7 @@ def run(tier, seed):
     verd = {j["tid"]: j for j in rt.json_lines}
     if len(verd) != len(allrecs) or len([t for t in rt.tuples if t and t[0] == "V"]) != len(allrecs):
         raise lib.MachineryError("Trace_Shadows verdicts are not total")
-    exp_neg = ["impossible_outcome", "form", "form", "form"]
+    exp_neg = ["impossible_outcome", "form", "form", "shadow_expval_infeasible", "form"]
     neg_rej = 0
     for i, _ in enumerate(neg):
         v = verd[len(live) + i + 1]["verdict"]
@@ -335,6 +354,15 @@ def run(tier, seed):
         v = verd[i + 1]
         n_dev += 1
         devs[meta["dev"]] = devs.get(meta["dev"], 0) + 1
+        std = "standard" if meta["labels"] == list(range(meta["n"])) else "nonstandard"
+        if v["verdict"] == "shadow_expval_infeasible":
+            wi = sorted(v["inf"])
+            ctx.viol.append(Violation(key=f"shadow_expval_infeasible:{meta['dev']}:{std}_labels",
+                                      detail=f"qp.shadow_expval on {meta['dev']}(wires={meta['labels']}) {meta['ops']} returned {meta['shadow_expval']} for words "
+                                             f"{rec['words']} on wires {meta['wires']}: the value(s) at position(s) {wi} cannot be produced by any {rec['T']} "
+                                             f"snapshots of non-zero probability (exact expectations {meta['exact_ev']})",
+                                      replay={"meta": meta, "trace": rec}))
+            continue
         if v["verdict"] != "ok":
             bad = rec["samples"][v["bad"] - 1] if v["bad"] else None
             ctx.viol.append(Violation(key=f"device:{v['verdict']}:{meta['dev']}",
@@ -345,25 +373,19 @@ def run(tier, seed):
         # shadow_expval with the same seeds: the exact estimator sums from TLC divided by T
         exp = np.array([sc(x).real for x in v["sums"]]) / rec["T"]
         if meta["shadow_expval"] is None:
-            if meta["labels"] == list(range(meta["n"])):
-                ctx.viol.append(Violation(key=f"shadow_expval_exception:{meta['dev']}", detail=f"{meta['shadow_expval_exception']} for {meta}", replay=meta))
-            else:
-                unmapped += 1
+            unmapped += std == "nonstandard"
+            ctx.viol.append(Violation(key=f"shadow_expval_exception:{meta['dev']}:{meta['shadow_expval_exception'].split(':')[0]}:{std}_labels",
+                                      detail=f"qp.shadow_expval raised {meta['shadow_expval_exception']} on {meta['dev']}(wires={meta['labels']}) "
+                                             f"{meta['ops']} for words {rec['words']} on wires {meta['wires']}", replay={"meta": meta}))
             continue
         got = np.array(meta["shadow_expval"])
         n_sexp += 1
         ctx.n_eval += 1
         if not close(got, exp):
-            feasible = got.shape == exp.shape and all(
-                abs(g * rec["T"] / 3 ** sum(1 for c in wd_ if c) - round(g * rec["T"] / 3 ** sum(1 for c in wd_ if c))) < 1e-6
-                and abs(g) <= 3 ** sum(1 for c in wd_ if c) + 1e-9 for g, wd_ in zip(got, rec["words"]))
-            if feasible:
-                drift_ex.append({"meta": meta, "same_seed_expectation": exp.tolist()})
-                ctx.drift += 1              # different random stream than classical_shadow with the same seeds: mechanism only
-            else:
-                ctx.viol.append(Violation(key=f"shadow_expval:{meta['dev']}:infeasible", detail=f"qp.shadow_expval returned {got.tolist()} which no "
-                                          f"{rec['T']}-snapshot shadow can produce for words {rec['words']} (same-seed expectation {exp.tolist()})",
-                                          replay={"meta": meta, "trace": rec}))
+            # TLC found the value feasible, but it is not what classical_shadow + ClassicalShadow.expval give with the same seeds:
+            # a different random stream is mechanism, not the property
+            drift_ex.append({"meta": meta, "same_seed_expectation": exp.tolist()})
+            ctx.drift += 1
     # ---------------------------------------------------------------- comparator negative controls
     T1 = tabs[min(tabs)]
     bad = ring_matrix_to_numpy(T1["snap"][0][0], M).copy()
